@@ -172,6 +172,11 @@ PROPS["C14"] = {
                     "release_all_resources (loop over a snapshot of the tracked ids, visit-position invariant) is inlined into complete_operation / abort_operation, whose "
                     "registry-wide postconditions execute_operation uses THROUGH THEIR CONTRACTS, as it uses acquire_resource's (granted => owned and tracked; every other lock and "
                     "every other tracking entry untouched, also when it raises); the loop invariant of execute_operation is 'what the operation owns it tracks'",
+                    "the other ways an operation ends are under the same clause: Watchdog.manual_kill and CoordinationSystem.kill_operation (the killed operation owns nothing and is "
+                    "no longer listed), CoordinationSystem.shutdown (for an arbitrary operation that was active and an arbitrary resource: not owned by it afterwards; releasing only "
+                    "keeps or clears owners, so a later abort cannot hand a resource back), Watchdog.execute (for an arbitrary event the watchdog's check() returns -- timeout, "
+                    "starvation, deadlock victim -- the terminated operation owns nothing afterwards). These four assume the two registry invariants instead of proving them: "
+                    "operations are listed under their own id, and what an operation owns it tracks",
                     "assumed at the top: the operation id is fresh (no registered resource is owned under it when the call starts: a `requires`), the registry is keyed by each "
                     "lock's own id (`requires`), and the havocked callbacks (work_fn, validate_fn, the checkpoints behind controller.advance) do not touch the controller's registry",
                     "a callee used through its contract with `modifies X[*]` re-freshes the fields of every object stored in the map X (identity kept; the pre-state view keeps the "
@@ -187,7 +192,8 @@ PROPS["C14"] = {
                    "most once and only after all acquisitions, validation only after completed work and on its result, success only if both succeeded. Bounded part: fault "
                    "injection over resource lists (with repeats, foreign holders, preemption) and kill/shutdown on the real system.",
     "level_text": "Deductive end to end: the registry-wide clauses of the statement are postconditions of execute_operation for an arbitrary resource id, through the "
-                  "contracts of acquire_resource / complete_operation / abort_operation; bounded fault injection (also watchdog kill / manual kill / shutdown) as witness finder.",
+                  "contracts of acquire_resource / complete_operation / abort_operation; manual kill, kill_operation, shutdown and the watchdog's kills likewise (under two assumed "
+                  "registry invariants); bounded fault injection as witness finder.",
     "level_note": "Fresh operation id and callbacks that leave the registry alone are assumed; watchdog / kill / shutdown paths reach the controller through abort_operation; engine and z3 trusted.",
 }
 
